@@ -4,7 +4,7 @@ summed, @ is the matrix product, .T the transpose). Concrete SciPy matrices are 
 import numpy as np
 import scipy.sparse as sps
 import scipy.sparse.linalg as spl
-from .npshim import SA, lift_arr, is_sym
+from .npshim import SA, lift_arr, is_sym, isobj
 from .sym import SR, SC, SI, ZERO
 
 _real_coo, _real_csr, _real_csc, _real_aslin = sps.coo_matrix, sps.csr_matrix, sps.csc_matrix, spl.aslinearoperator
@@ -12,7 +12,7 @@ _real_diags = sps.diags
 
 
 def _is_obj(x):
-    return isinstance(x, np.ndarray) and x.dtype == object
+    return isobj(x)
 
 
 def todense_obj(m):
@@ -234,7 +234,7 @@ def install():
     def _matmul_dispatch(self, other):
         if isinstance(other, DS):
             return DS(todense_obj(self) @ other.a)
-        if isinstance(other, np.ndarray) and other.dtype == object:
+        if isinstance(other, np.ndarray) and isobj(other):
             return (todense_obj(self) @ other).view(SA)
         return _orig_dispatch(self, other)
 
@@ -245,7 +245,7 @@ def install():
         def _rmatmul_dispatch(self, other):
             if isinstance(other, DS):
                 return DS(other.a @ todense_obj(self))
-            if isinstance(other, np.ndarray) and other.dtype == object:
+            if isinstance(other, np.ndarray) and isobj(other):
                 return (other @ todense_obj(self)).view(SA)
             return _orig_r(self, other)
 
